@@ -13,19 +13,19 @@ PROP = {
             "(<= 3 / 4 on 8 elements / 4 pairs); every history of <= 2 operations of the full vocabulary on sizes {0,1,3,7,8,9,10,20} / {0,1,3,4,5,6,12}; b=a followed by every "
             "history of <= 2 on the sizes around and above the thresholds; thorough: every history of <= 3 on sizes 8,9,10 / 4,5,6; map + with a history (every history of <= 4 operations from: grow by index assignment, shrink by del, a+{existing key}, a+{smaller and existing key}, a+{}, {}+a, "
             "writes and deletes through the result, on 5 pairs; shorter on 4 and 6); rest()/slices of maps with a history (grow by two assignments, r=rest(a), r=a[1:6], insert at the front / in the middle of r, "
-            "delete, overwrite, write to a afterwards; a and r observed after every step); random histories of 10-30 operations with "
+            "delete, overwrite, write to a afterwards; a and r observed after every step); second vocabulary (valsem2.go, 26 array and 24 map operations): stores by index assignment (c[0]=a, m.k=a), a container stored inside itself or appended twice to one array, del from inside functions and on parameters, the three spellings of `++` on an element (no grol form: parse or evaluation error, nothing may change), loop variables bound to nested containers, first(), identity and variadic functions, :=, catch(), if-expressions, closures writing a global, swaps - every single operation on sizes {0,3,8,9,12} / {0,2,4,5,7}, every history of <= 2 after b = a on the sizes around the thresholds, 150 (thorough 3000) random mixes of both vocabularies; random histories of 10-30 operations with "
             "permuted bindings, literals of random size 0-20 / 0-12 rebound in the middle, growth (v=v+v) and shrinking (v=v[0:n]) across both thresholds. Statement: all four "
             "configurations observe exactly what the model observes. Statement on the model: same observations for thresholds (8,4), (0,0), (1000,1000) with the cache off. "
             "A difference counts as a listed class only if its first occurrence comes at or after an input in which the model executed an in-place-capable operation on a "
             "large container THROUGH A NAME THAT MAY SHARE STORAGE with another live name, decided by a syntactic may-alias analysis over the session's trees (plain copies, arguments, "
-            "containment, slices/rest of arrays, array +; literals, *, + with a map on the left and rest/slices of maps are fresh): a write through a name owning fresh storage never explains a difference. non-trivial = at least one input parses; distinct = distinct case line.",
-    "trusted_base": EVAL_TB + ["the Go heap (sharing of BigArray slices / *BigMap pointers) is NOT modelled: the model is the value-semantic specification; the three open classes "
+            "containment incl. what a map LITERAL operand of + holds, slices/rest of arrays, array +, closures returned by known functions; literals, *, + with a map on the left and rest/slices of maps are fresh); since repo fix 534d791 a `+` on a large array excuses nothing: a write through a name owning fresh storage never explains a difference. non-trivial = at least one input parses; distinct = distinct case line.",
+    "trusted_base": EVAL_TB + ["the Go heap (sharing of BigArray slices / *BigMap pointers) is NOT modelled: the model is the value-semantic specification; the two open classes "
                                "are decided by the driver from what the MODEL executed (St.hazards), see lean/Grol/Eval/HazardSession.lean"],
-    "assumptions": EVAL_ASSUME + ["C06.Statement is about the implementation and is false of the current code for large containers (3 open classes, witnesses replayed every run)"],
+    "assumptions": EVAL_ASSUME + ["C06.Statement is about the implementation and is false of the current code for large containers (2 open classes, witnesses replayed every run; the append class is repaired by repo fix 534d791)"],
 }
 LEVEL = {"text": "Kernel-checked theorems that the reference model has value semantics (writes are framed to the assigned name, every infix operator leaves the state unchanged, "
                  "the operator layer ignores the thresholds) + exhaustive short and random long histories on the real interpreter compared with that model after every step.",
          "design_ref": "DESIGN.md section 7, C06",
-         "note": "False of the current code for large containers: three open known-finding classes (index assignment, map set/delete, append capacity), each with a witness replayed "
+         "note": "False of the current code for large containers: two open known-finding classes (index assignment, map set/delete), each with a witness replayed "
                  "on every run; copy-on-write was judged not a small safe patch.",
          "technique": "Lean 4 proofs (ReadOnly calculus over the state monad) + correspondence suite `values` with model-decided finding classes"}
